@@ -13,6 +13,8 @@ for (const mergeProps of [true, false]) for (const transformOn of [false, true])
   if (pat) o.customElementPatterns = PATTERNS;
   OPTION_VARIANTS.push(o);
 }
+// configurations that leave options out (documented defaults apply: mergeProps on)
+OPTION_VARIANTS.push({}, { transformOn: true }, { optimize: true, customElementPatterns: PATTERNS });
 
 // kinds small enough to enumerate sequences over (thorough: length <= 3, quick: length <= 2 over a sub-alphabet)
 const ENUM_ALPHABET = ['strPlain', 'valueless', 'call', 'objDyn', 'namespaced', 'spreadIdent', 'spreadObjLit', 'classStr', 'classExpr', 'styleObj', 'onClick', 'onObj'];
@@ -59,7 +61,7 @@ export function* generate({ tier, seed }) {
   }
   // 3b. repeated attribute names under mergeProps:false (plain last-wins semantics is decided there)
   const nDup = tier === 'quick' ? 600 : 8000;
-  const offVariants = OPTION_VARIANTS.filter((o) => !o.mergeProps);
+  const offVariants = OPTION_VARIANTS.filter((o) => o.mergeProps === false);
   for (let i = 0; i < nDup; i++) {
     const b = new ModuleBuilder();
     const tf = rng.pick(TAG_FORMS);
